@@ -53,7 +53,15 @@ func runC12(s *kernel.Sim) {
 		MaxRecordSizeBytes:    1 << 20,
 		MaxCacheSizeMegabytes: 1,
 	}
+	// retry_after_type left out of the remedy: whether the engine then remembers the
+	// response at all is its choice; if it does replay one, the value is delay-seconds
+	// and the replay must carry it reduced like any other
+	untyped := throttling && !absolute && tp.Chance(1, 5)
+	s.Knobs["retry_after_type_omitted"] = untyped
 	raType := sharedConfig.RetryAfterRelativeSeconds
+	if untyped {
+		raType = sharedConfig.RetryAfterUndefined
+	}
 	if absolute {
 		raType = sharedConfig.RetryAfterAbsoluteEpoch
 	}
@@ -134,7 +142,7 @@ func runC12(s *kernel.Sim) {
 			stored[body] = st
 			s.Event("response", st.key, fmt.Sprintf("status=%d retry-after=%s body#%d", st.status, hdr[raName], n))
 			_, err := thr.OnResponse(lunarMessages.OnResponse{ID: fmt.Sprintf("t%d", n), Method: k.m, URL: k.u, Status: st.status, Body: body, Headers: hdr}, thrCfg)
-			if err != nil {
+			if err != nil && !untyped {
 				s.Violate("R1", "plugin-error", "OnResponse error: %v", err)
 			}
 			return
